@@ -1239,6 +1239,14 @@ func (in *interp) chanSend(fr *frame, ch *schan, v value) {
 		panic(targetPanic{v: iface{t: in.runtimeErrorT, v: "send on closed channel"}, site: in.siteOf(fr), rt: true})
 	}
 	if len(ch.buf) >= ch.cap {
+		if in.cfg != nil && in.cfg.blockedSendOK {
+			// the harness declares that this queue has a live consumer: waiting for room is fine — unless
+			// the sender waits while holding a mutex (which the consumer may need: a real deadlock)
+			if in.heldLocks == 0 {
+				panic(pathAbort{kind: "blocked", msg: "send waits for the consumer at " + in.siteOf(fr)})
+			}
+			panic(pathAbort{kind: "deadlock", msg: fmt.Sprintf("send waits on a full queue while %d mutex(es) are held at %s", in.heldLocks, in.siteOf(fr))})
+		}
 		panic(pathAbort{kind: "deadlock", msg: "send would block forever (single goroutine) at " + in.siteOf(fr)})
 	}
 	ch.buf = append(ch.buf, copyVal(v))
